@@ -34,6 +34,18 @@ Theorem C13_loader_safe : forall data, bytes_ok data -> N.of_nat (List.length da
 Proof. intros data H1 H2. exact (proj1 (loader_safe_fixed cur data eq_refl eq_refl H1 H2)). Qed.
 Print Assumptions C13_loader_safe.
 
+(* the current loader is strict: a FUNCTIONS / DEBUG section that is accepted consists of whole 18- / 8-byte entries
+   (a truncated last entry or left-over bytes refuse the file; the STRINGS and IMPORTS loops have the same exit test) *)
+Theorem C13_loader_whole_entries : forall data size base ssz fuel m m',
+  (ssz + 18 < two32 -> load_funs cur fuel data size base ssz 0 m = Loaded m' -> ssz mod 18 = 0) /\
+  (ssz + 8 < two32 -> load_debug cur fuel data size base ssz 0 m = Loaded m' -> ssz mod 8 = 0).
+Proof.
+  intros data size base ssz fuel m m'. split; intros Hb H.
+  - pose proof (strict_funs_whole cur data size base ssz eq_refl Hb fuel 0 m m' (N.le_0_l _) H) as E. rewrite N.sub_0_r in E. exact E.
+  - pose proof (strict_debug_whole cur data size base ssz eq_refl Hb fuel 0 m m' (N.le_0_l _) H) as E. rewrite N.sub_0_r in E. exact E.
+Qed.
+Print Assumptions C13_loader_whole_entries.
+
 (* ---- verifier ---- *)
 Theorem C13_verifier_safe_cfg : forall c m, fx_fnrange c = true -> code_fits m -> verifyC c m = VReject \/ verifyC c m = VAccept.
 Proof. exact verifier_safe_fixed. Qed.
